@@ -1,5 +1,6 @@
 """C08 -- BioConsert returns a local optimum of the Kemeny score."""
-from .. import grids
+from .. import grids, localrun
+from ..framework import Model, Stage
 from . import algo_common as ac
 
 PID = "C08"
@@ -24,8 +25,31 @@ def _nt(rec):
     return rec["out"] == "consensus" and ac.n_elems(rec) >= 3 and len(rec["K"][0]) > 1
 
 
+def models(tier):
+    return [Model("MC_LocalSearch", "MC_LocalSearch_4.cfg" if tier == "quick" else "MC_LocalSearch_5.cfg",
+                  "the in-place renumbering of _change_bucket/_add_bucket (transcribed) realises the abstract single-"
+                  "element move and keeps bucket ids dense, for every dense vector, element and target")]
+
+
+def _search_cases(dss, schemes):
+    out = []
+    for k, D in enumerate(dss):
+        out.append({"D": D, "sch": list(schemes[k % len(schemes)]), "naming": "ints",
+                    "cfg": "BioCo" if k % 3 == 0 else "BioConsert"})
+    return out
+
+
+def twin_stage(name, cases_fn, prop="C08"):
+    return Stage(name, "Trace_Local", localrun.run_search, cases_fn, lambda r: len(r.get("moves", [])) >= 1,
+                 localrun.init, post=localrun.flatten, chunk=3000, aux={"prop": prop})
+
+
 def stages(tier, rng, only=None):
-    out = [ac.stage("grid3x2", PID, lambda: ac.cases(grids.datasets(3, 2), BIO, SCHEMES), _nt)]
+    out = [ac.stage("grid3x2", PID, lambda: ac.cases(grids.datasets(3, 2), BIO, SCHEMES), _nt),
+           twin_stage("moves3x2", lambda: _search_cases(grids.datasets(3, 2), SCHEMES)),
+           twin_stage("moves_random", lambda: _search_cases(
+               [ac.random_dataset(rng, 6, 5, nmin=3) for _ in range(200 if tier == "quick" else 2000)],
+               SCHEMES + FINE))]
     n_rand = 400 if tier == "quick" else 4000
     out.append(ac.stage("random", PID, lambda: ac.cases([ac.random_dataset(rng, 7, 6, nmin=3) for _ in range(n_rand)],
                                                         BIO, SCHEMES + ac.grid_sample(rng, 8)), _nt))
